@@ -1,8 +1,8 @@
 (** * C16 - No request is served beyond what the caller's token and ACL grant.
     Only statements, each closed by [exact <lemma>], with [Print Assumptions]. *)
 From Coq Require Import List String Bool NArith.
-From DH Require Import Model.Acl Model.Jwt Model.Gate Model.SecStore
-     Proofs.AclProofs Proofs.JwtProofs Proofs.GateProofs Proofs.SecStoreProofs Check.C16Check Proofs.C16CheckProofs.
+From DH Require Import Model.Acl Model.Jwt Model.Gate Model.SecStore Model.GateSeq
+     Proofs.AclProofs Proofs.JwtProofs Proofs.GateProofs Proofs.SecStoreProofs Proofs.GateSeqProofs Check.C16Check Proofs.C16CheckProofs.
 Import ListNotations.
 Open Scope string_scope.
 
@@ -170,6 +170,42 @@ Theorem C16_unguarded_route_refutes :
 Proof. exact unguarded_route_refutes. Qed.
 Print Assumptions C16_unguarded_route_refutes.
 
+(** ** sequences of requests through one process: the gate keeps nothing between requests *)
+
+(** for every list of requests, arriving at any instants in any order, the answers of a run through a fresh
+    process are the per-request decisions at the instant of each request - nothing asked earlier matters *)
+Theorem C16_stateless : forall v tw rs, gate_run CacheNone v tw rs = stateless_answers v tw rs.
+Proof. exact gate_run_stateless. Qed.
+Print Assumptions C16_stateless.
+
+(** hence every answer of a run satisfies the gate spec at its own instant (repaired flags) ... *)
+Theorem C16_run_sound : forall tw rs i r o,
+  table_ok (tw_routes tw) ->
+  nth_error rs i = Some r -> nth_error (gate_run CacheNone fixed tw rs) i = Some o ->
+  gate_spec (world_at tw (rq_time r)) (rq_auth r) (rq_method r) (rq_path r) (fst o).
+Proof. exact gate_run_sound. Qed.
+Print Assumptions C16_run_sound.
+
+(** ... and a token is never served at or after its exp (or before its nbf), however often it was accepted before;
+    this part holds under every combination of the gate flags, the pinned ones included *)
+Theorem C16_no_expired_served : forall v tw rs i r o,
+  nth_error rs i = Some r -> nth_error (gate_run CacheNone v tw rs) i = Some o -> fst o = Served ->
+  skipper (rq_path r) = false ->
+  exists t, extract_token (rq_auth r) = Some t
+    /\ (forall e, tt_exp (tw_tokens tw t) = Some e -> (rq_time r < e)%N)
+    /\ (forall n, tt_nbf (tw_tokens tw t) = Some n -> (n <= rq_time r)%N).
+Proof. exact no_expired_served_any_variant. Qed.
+Print Assumptions C16_no_expired_served.
+
+(** a handler that remembers the bearer strings it accepted is not stateless: the same string is served after its
+    exp if (and only if, here) it was presented before *)
+Theorem C16_refuted_verified_cache :
+  map fst (gate_run CacheVerified fixed demo_tw [demo_rq 0; demo_rq 10]) = [Served; Served]
+  /\ map fst (gate_run CacheNone fixed demo_tw [demo_rq 0; demo_rq 10]) = [Served; Unauth]
+  /\ map fst (gate_run CacheVerified fixed demo_tw [demo_rq 10]) = [Unauth].
+Proof. exact cache_refuted. Qed.
+Print Assumptions C16_refuted_verified_cache.
+
 (** ** persistence *)
 
 (** for all histories of register / unregister / set-ACL / delete-ACL / restart, a restart is the identity on
@@ -245,3 +281,13 @@ Example C16_nonvacuous_persist :
   lookup "a" (mem_acls (sec_run AclFileAcls InitIndependent ops)) = Some demo_acl
   /\ lookup "b" (mem_acls (sec_run AclFileAcls InitIndependent ops)) = None.
 Proof. vm_compute. split; reflexivity. Qed.
+
+(** the text before the final * is a literal prefix: a dot is a dot *)
+Example C16_nonvacuous_literal_prefix :
+  let e := {| ac_resource := "/datasets/sdb.*"; ac_action := "write"; ac_deny := false |} in
+  (entry_applies e "/datasets/sdb.Animal/entities" "write", entry_applies e "/datasets/sdb2.Secret/entities" "write",
+   entry_applies e "/datasets/sdbx" "read",
+   entry_applies {| ac_resource := "/datasets/*/changes*"; ac_action := "read"; ac_deny := false |} "/datasets/x/changes" "read",
+   filter_datasets DenySkip [e] ["sdb.Animal"; "sdb2.Secret"; "sdbx"])
+  = (true, false, false, false, ["sdb.Animal"]).
+Proof. vm_compute. reflexivity. Qed.
